@@ -185,7 +185,6 @@ func runMovedWorld(r *lib.Run, idx int) {
 	noteClass("moved_endpoint_change_kinds_installed", kind)
 }
 
-
 // runMovedDuringCheckWorld: the newer record (other endpoint) reaches R through a third party - as a lookup result
 // would - while one of R's own liveness checks to the OLD endpoint is in flight; the old endpoint then answers. The
 // answer proves nothing about the new endpoint.
